@@ -244,7 +244,7 @@ func Hx(b []byte) string {
 
 func Unhex(s string) []byte {
 	if s == "-" || s == "" {
-		return nil
+		return []byte{}
 	}
 	b, err := hex.DecodeString(s)
 	if err != nil {
